@@ -56,6 +56,14 @@ def check_proofs(prop):
         return res
     src = re.sub(r"\(\*.*?\*\)", "", open(pf).read(), flags=re.S)
     res["theorems"] = re.findall(r"^\s*(?:Theorem|Corollary)\s+(\w+)", src, flags=re.M)
+    # props/<id>.v is generated from props_src/<id>.txt (tools/genprops.py): a theorem listed there must be stated in the checked file
+    sf = os.path.join(ROOT, "coq", "props_src", prop + ".txt")
+    if os.path.exists(sf):
+        listed = [l.split()[1] for l in open(sf).read().split("RAW")[0].splitlines() if l.startswith("THEOREM ")]
+        missing = [n for n in listed if n not in res["theorems"]]
+        if missing:
+            res["build_ok"] = False; res["log"] = "coq/props/%s.v is older than coq/props_src/%s.txt (run coq/tools/genprops.py %s): missing %s" % (prop, prop, prop, missing)
+            return res
     printed = re.findall(r"Print Assumptions\s+(\w+)\s*\.", src)
     # output blocks of Print Assumptions appear in order
     blocks = re.split(r"(?=Closed under the global context|Axioms:)", out)
